@@ -26,8 +26,8 @@
        TRUTHINESS of the source callable - that old behaviour is kept as [OldTruthiness] at the end of Part 1, with the
        two witnesses of what was wrong with it).  The recorded truth value of a probe source (first component of an
        [e_srcs] entry) is therefore ignored by the model.
-     * "has a post-processor" is still `if self.post_processor`: PNone stands for None; falsy post-processor callables
-       are outside the model.
+     * "has a post-processor" is `self.post_processor is not None` (since fix 8d240cc5, finding F-AD; before it a
+       post-processor callable whose truth value is False was silently never applied): PNone stands for None.
      * keyword arguments of Pipeline.__call__ are handed to the source and to every modifier unchanged: they are part of
        the argument type ([carg] carries them).
      * list_combiner on a value that is not a list: `value.append` raises AttributeError before the mutator is
